@@ -362,6 +362,9 @@ async def level2(sh, rig, r, regime, label):
             if sent:
                 sh.violation("C06:gate", f"{name} invoked at {t0:.1f} while the spa was not connected / not answering pings still transmitted {sum(len(c.tx) for c in sent)} datagram(s)", {"api": name, "invoke": round(t0, 2), "task": task, "history": label})
     sh.count("api_calls_gate_closed", closed_calls)
+    sh.see("timing_profiles", "active" if GeckoConfig.PING_FREQUENCY_IN_SECONDS < 10 else "idle")
+    if GeckoConfig.PING_FREQUENCY_IN_SECONDS < 10:
+        sh.count("api_calls_gate_closed_active_profile", closed_calls)
     sh.count("api_calls", len(api_calls))
     # every gated datagram on the wire belongs to an admitted API call
     for c in mon.calls:
@@ -392,7 +395,10 @@ def shard(sh: Shard, seed, wseed, regime, n1, n2):
         w = World(r, "B", max_iter=8_000_000, wall_cap=900)
         label = f"{seed}:{wseed}:{level}:{idx}"
         try:
-            rig = SpaRig(w)
+            # level 2, odd scenarios: a snapshot with a pump running, so the facade selects the
+            # active timing profile (ping every 2 s: the "answering pings" window is 4 s, not 120 s)
+            active = level == 2 and idx % 2 == 1
+            rig = SpaRig(w, snapshot="inYT-Pump1Lo-2020-12-13 11_19_35.snapshot") if active else SpaRig(w)
 
             async def main():
                 if not await rig.connect(background=(level == 2)):
@@ -436,6 +442,7 @@ def main(tier, seed):
     run.absorb(run_shards("checks.c06", "shard", jobs, timeout=3000))
     run.need(run.counters.get("calls_answered", 0) > 300 and run.counters.get("calls_failed", 0) > 50, "too few answered/failed calls")
     run.need(run.counters.get("api_calls_gate_closed", 0) > 10, "the gate was hardly ever closed at an API call")
+    run.need(run.counters.get("api_calls_gate_closed_active_profile", 0) > 5, "the gate was hardly ever closed at an API call under the active timing profile")
     run.need(run.counters.get("gated_datagrams_attributed", 0) > 20, "too few gated datagrams observed")
     run.need(run.maxima.get("max_concurrent_callers", 0) >= 8, "never 8 or more concurrent callers")
     run.need(run.counters.get("transport_lost_under_callers", 0) > 3, "transport loss under callers not exercised")
